@@ -669,13 +669,25 @@ Section Writer.
     | (s1, Panic p) => (s1, Panic p)
     end.
 
-  (* Drop: finalize unless already closed; errors are only printed *)
+  (* Drop: finalize unless already closed; errors are only printed.  When finalisation fails while a
+     deflate/bzip2 encoder is still active, the encoder's own Drop finishes its stream into the sink
+     (flate2 and bzip2 do, zstd does not); errors of that write are ignored. *)
+  Definition drop_inner (i : winner) : winner :=
+    match i with
+    | WComp m lvl d None pending =>
+        match m with
+        | CompressionMethod_Deflated | CompressionMethod_Bzip2 => WClosed (Some (fst (dev_write_all d (enc m lvl pending))))
+        | _ => WClosed (Some d)
+        end
+    | other => close_of other
+    end.
+
   Definition drop_writer (s : wstate) : wstate * res unit :=
     match ws_inner s with
     | WClosed _ => (s, Ok tt)
     | _ => match finalize s with
            | (s1, Panic p) => (s1, Panic p)
-           | (s1, _) => (s1, Ok tt)
+           | (s1, _) => (set_inner s1 (drop_inner (ws_inner s1)), Ok tt)
            end
     end.
 
